@@ -200,6 +200,26 @@ _FIELD = re.compile(r'^\d+(\.\d*)?$|^\.\d+$')
 
 
 def examine_parse(case):
+    if 'default_of' in case:
+        # an omitted precision is the documented default (0 for the formatter, 2 for the round-up helper); an int duration is
+        # the same duration
+        x = case['value']
+        if case['default_of'] == 'format':
+            a, b = call(athlib.format_seconds_as_time, x), call(athlib.format_seconds_as_time, x, 0)
+            c = call(athlib.format_seconds_as_time, float(x), 0) if isinstance(x, int) and abs(x) < 2 ** 53 else b
+        else:
+            a, b = call(athlib.round_up_str_num, x), call(athlib.round_up_str_num, x, 2)
+            c = b
+        if a[:2] != b[:2] or c[:2] != b[:2]:
+            return [V('default-precision', [case['default_of'], 'default-differs'], case, [a[:2], c[:2]], b[:2])]
+        return []
+    if 'number' in case:
+        # the documented numeric carriers: a number is its own value, type included ("integers stay integers")
+        x = case['number']
+        r = call(athlib.parse_hms, x)
+        if r[0] != 'ret' or type(r[1]) is not type(x) or r[1] != x:
+            return [V('parse-exact', ['parse', 'number-carrier', type(x).__name__], case, repr(r[:2]), repr(x))]
+        return []
     t = case['text']
     r = call(athlib.parse_hms, t)
     out = []
@@ -324,6 +344,24 @@ def run(ctx):
         if vs:
             ctx.violations(vs)
     t()
+    nrng = random.Random(derive_seed(ctx.seed, 'C06-numbers'))
+    for x in [0, 1, 59, 60, 61, 3599, 3600, 86400, 2 ** 53 + 1, 10 ** 30, 0.0, 0.5, 59.99, 60.0, 3670.1, 1e-9, 1e300] + \
+            [nrng.randrange(0, 400000) for _ in range(200)] + [nrng.randrange(0, 40000000) / 100.0 for _ in range(200)]:
+        ctx.count()
+        ctx.label('parse_hms-number-carrier')
+        vs = examine_parse({'kind': 'parse', 'number': x})
+        if vs:
+            ctx.violations(vs)
+    for x in [0, 1, 59, 60, 3599, 3600, 86399, 0.001, 59.5, 59.999, 3599.2] + [nrng.randrange(0, 400000) for _ in range(100)] + \
+            [nrng.randrange(0, 400000000) / 1000.0 for _ in range(100)]:
+        ctx.count()
+        ctx.label('default-precision')
+        ctx.violations(examine_parse({'kind': 'parse', 'default_of': 'format', 'value': x}))
+    for _ in range(200):
+        x = '%d.%s' % (nrng.randrange(0, 1000), ''.join(nrng.choice('0123456789') for _ in range(nrng.randrange(0, 7))))
+        ctx.count()
+        ctx.label('default-precision')
+        ctx.violations(examine_parse({'kind': 'parse', 'default_of': 'round', 'value': x}))
     if thorough:
         from vlib import fuzzrun
         fuzzrun.run_atheris(ctx, 'fuzz/c06_parse.py', seconds=90, seeds=[b'\x00\x051:2:3', b'\x02' + b'\x00' * 8, b''])
